@@ -185,12 +185,15 @@ pub fn add_set(ctx: &mut Ctx) {
 pub fn access(ctx: &mut Ctx) {
     let mut real = Real::new();
     let positions = [i32::MIN, -1, 0, 1, 2, 3, i32::MAX];
-    let ns = [i32::MIN, -1, 0, 1, 2, 5, i32::MAX];
+    let ns = [i32::MIN, -1, 0, 1, 2, 3, 5, 9, i32::MAX];
     let records = vec![
         Tree::L(vec![Tree::B(true), Tree::I(10), Tree::F(0.5), Tree::L(vec![Tree::I(11), Tree::B(false), Tree::L(vec![Tree::F(1.5), Tree::I(12)])]), Tree::name("A")]),
         Tree::L(vec![]),
         Tree::I(7),
         Tree::L(vec![Tree::L(vec![Tree::L(vec![Tree::B(false)])]), Tree::B(true), Tree::IV(vec![1, 2]), Tree::F(f32::NAN)]),
+        // one top-level element, many values inside; deep nesting
+        Tree::L(vec![Tree::L(vec![Tree::I(10), Tree::I(20), Tree::I(30), Tree::I(40), Tree::F(1.5), Tree::F(2.5), Tree::F(3.5), Tree::B(true), Tree::B(false), Tree::B(true)])]),
+        Tree::L(vec![Tree::L(vec![Tree::L(vec![Tree::L(vec![Tree::I(1), Tree::I(2), Tree::I(3), Tree::B(true), Tree::B(true), Tree::F(9.5), Tree::F(8.5), Tree::F(7.5)])])])]),
     ];
     for cdepth in 0..=records.len() {
         for rot in 0..records.len().max(1) {
